@@ -1,6 +1,7 @@
 package main
 
 import (
+	"context"
 	"fmt"
 	"math/rand"
 	"os"
@@ -186,6 +187,18 @@ func init() {
 		// aborted transfer returns
 		vst, vsc := verdictFamily(run)
 		fmt.Printf("C20: Verdict.tla %d states; %d gated schedules of aborted chunked transfers, goroutine census after each\n", vst, vsc)
+		// ---- a slow Logout of one connection does not stop the server from serving or
+		// Shutdown from honouring its context
+		nslow := 0
+		for _, lm := range []bool{false, true} {
+			for _, how := range []string{"eof", "quit"} {
+				nslow++
+				if msg := slowLogout(how, lm); msg != "" {
+					run.Report(evid.Div{Prop: "C20", Key: "slow-logout:" + how, Msg: fmt.Sprintf("connection ended by %s (lmtp=%v), Logout still running: %s", how, lm, msg), Replay: map[string]interface{}{"engine": "slow-logout", "how": how, "lmtp": lm}})
+				}
+			}
+		}
+		fmt.Printf("C20: %d slow-Logout scenarios (new connection greeted, Shutdown honours its context)\n", nslow)
 		// ---- no deadlock after a backend panic: whatever callback panics, the
 		// connection ends and Server.Close still returns (a lock left held by the
 		// panicking path would wedge it)
@@ -274,6 +287,94 @@ func tailText(s string, n int) string {
 // panicThenClose makes the backend panic in callback cb on a live connection,
 // then closes the server: the connection must end (or at least not hold up the
 // close) and Close and Serve must return.
+// slowLogout: a connection ends (how: "eof", the peer drops it; "quit") and the
+// backend's Logout for it takes its time.  Meanwhile the server goes on serving:
+// a new connection is greeted, and Shutdown with a short context returns when
+// that context expires (Lifecycle.tla: Accept and ShutdownExpire stay enabled
+// while a handler is finishing).
+func slowLogout(how string, lmtp bool) string {
+	srv := drv.Start(drv.Cfg{LMTP: lmtp, MaxLine: 2000})
+	be := srv.BE
+	defer func() {
+		be.ReleaseAll()
+		stopped := make(chan struct{})
+		go func() { srv.Stop(); close(stopped) }()
+		select {
+		case <-stopped:
+		case <-time.After(5 * time.Second):
+		}
+	}()
+	cn, err := srv.Dial()
+	if err != nil {
+		return "dial: " + err.Error()
+	}
+	cn.Output()
+	hello := "EHLO s.test\r\n"
+	if lmtp {
+		hello = "LHLO s.test\r\n"
+	}
+	if _, _, err := cn.Replies([]byte(hello)); err != nil {
+		return "greeting: " + err.Error()
+	}
+	be.Hold("slow-logout")
+	be.Lock()
+	be.LogoutGate = "slow-logout"
+	be.Unlock()
+	if how == "quit" {
+		cn.Send([]byte("QUIT\r\n"))
+	} else {
+		cn.Close()
+	}
+	parked := make(chan struct{})
+	go func() { be.WaitParked("slow-logout"); close(parked) }()
+	select {
+	case <-parked:
+	case <-time.After(5 * time.Second):
+		return "Logout was not called within 5 s of the connection's end"
+	}
+	be.Lock()
+	be.LogoutGate = "" // later sessions log out at once
+	be.Unlock()
+	// (a) the server goes on serving
+	got := make(chan string, 1)
+	go func() {
+		c2, err := srv.Dial()
+		if err != nil {
+			got <- "dial: " + err.Error()
+			return
+		}
+		defer c2.Close()
+		rs, _, err := c2.Replies(nil)
+		if err != nil || len(rs) != 1 || rs[0].Code != 220 {
+			got <- fmt.Sprintf("greeting of a new connection: %v %v", codes(rs), err)
+			return
+		}
+		got <- ""
+	}()
+	select {
+	case m := <-got:
+		if m != "" {
+			return "while a Logout is in progress: " + m
+		}
+	case <-time.After(4 * time.Second):
+		return "while a Logout is in progress a new connection is not greeted within 4 s:\n" + drv.GoroutineDump("go-smtp")
+	}
+	// (b) Shutdown returns when its context expires
+	ctx, cancel := context.WithTimeout(context.Background(), 200*time.Millisecond)
+	defer cancel()
+	sd := make(chan error, 1)
+	go func() { sd <- srv.S.Shutdown(ctx) }()
+	select {
+	case err := <-sd:
+		if err == nil {
+			return "Shutdown returned nil although a handler was still inside Logout"
+		}
+	case <-time.After(4 * time.Second):
+		return "Shutdown did not return within 4 s although its context expired after 200 ms:\n" + drv.GoroutineDump("go-smtp")
+	}
+	return ""
+}
+
 func panicThenClose(cb string, lmtp bool) string {
 	srv := drv.Start(drv.Cfg{LMTP: lmtp, MaxLine: 2000})
 	cn, err := srv.Dial()
